@@ -260,18 +260,20 @@ theorem bai_truncate (d : Bytes) (refs : List Noodles.Index.RefLin) (t : Bytes)
         (t.take (k - (d.length - t.length))).drop 8)) :=
   bai_cut d refs t hd k hk
 
-/-- **tabix (the uncompressed payload), every cut**, for an index with at least one reference
-sequence: as BAI. (The header is read through `take(l_nm)`: a cut at a name boundary makes the name
-list SHORTER, not an error — but the first reference sequence then needs four bytes that are not
-there. With `n_ref = 0` nothing follows: `tabix_cut_names_accepted_when_no_reference`.) -/
+/-- **tabix (the uncompressed payload), every cut** — with or without reference sequences: as BAI.
+(The names are read through `take(l_nm)` to its end; since /repo `fix:` 125ecd7 a `Take` that still has
+a limit left afterwards — the input ended inside the names block — is `UnexpectedEof`, reported as
+`InvalidData` by `read_index`: a cut at a name boundary is an ERROR, not a shorter name list. Before
+that commit this theorem needed `0 < n_ref`; `tabix_cut_names_rejected_when_no_reference` is the old
+counterexample, now an error.) -/
 theorem tabix_truncate (d : Bytes) (nRef : Nat) (h : Noodles.Index.Header)
     (refs : List Noodles.Index.RefLin) (t : Bytes)
-    (hd : runPure tabixHead d = (.ok (nRef, h, refs), t)) (hn : 0 < nRef) (k : Nat) (hk : k ≤ d.length) :
+    (hd : runPure tabixHead d = (.ok (nRef, h, refs), t)) (k : Nat) (hk : k ≤ d.length) :
     (k < d.length - t.length → ∃ e, EofOrInvalid e ∧ runPure tabixReadIndex (d.take k) = (.error e, [])) ∧
     (d.length - t.length ≤ k → runPure tabixReadIndex (d.take k) =
       (.ok ⟨some h, refs, unplacedOf (t.take (k - (d.length - t.length)))⟩,
         (t.take (k - (d.length - t.length))).drop 8)) :=
-  tabix_cut d nRef h refs t hd hn k hk
+  tabix_cut d nRef h refs t hd k hk
 
 /-- **CSI (the uncompressed payload), every cut**: `csi::io::Reader::read_index` reports every error as
 `InvalidData`, so that is what a cut before the trailing count gives; the exception is the same. -/
@@ -498,12 +500,20 @@ def namesOf (r : Except Err Noodles.Index.Tabix) : Option (List Bytes) :=
   | .ok ix => ix.header.map (·.names)
   | .error _ => none
 
-/-- The hypothesis `0 < nRef` of `tabix_truncate` is needed: with `n_ref = 0` a name block cut at a
-name boundary is ACCEPTED as an index with fewer names (40 bytes: names `a`, `b`; the first 38: name
-`a`). Such an index — names without reference sequences — is not what the tabix indexer builds. -/
-theorem tabix_cut_names_accepted_when_no_reference :
+def errOf (r : Except Err Noodles.Index.Tabix) : Option Err :=
+  match r with
+  | .ok _ => none
+  | .error e => some e
+
+/-- WITNESS for `tabix_truncate` with `n_ref = 0` (the case the theorem excluded before /repo `fix:`
+125ecd7): the 40-byte payload with the names `a`, `b` is read; cut at the name boundary (38 bytes: `l_nm
+= 4`, then only `a NUL`) it is REJECTED — `UnexpectedEof` from `read_reference_sequence_names`, which
+`read_index` reports as `InvalidData` — and so is every other strict cut. (Before the fix the first 38
+bytes were accepted as an index with the single name `a`.) -/
+theorem tabix_cut_names_rejected_when_no_reference :
     namesOf (runPure tabixReadIndex tbiNoRef).1 = some [[97], [98]] ∧
-    namesOf (runPure tabixReadIndex (tbiNoRef.take 38)).1 = some [[97]] := by
+    errOf (runPure tabixReadIndex (tbiNoRef.take 38)).1 = some .invalidData ∧
+    ∀ k, k < 40 → (errOf (runPure tabixReadIndex (tbiNoRef.take k)).1).isSome = true := by
   decide
 
 /-- a CRAM file header container with a RAW (uncompressed) block — not what noodles writes —: header
